@@ -379,6 +379,14 @@ func cases() []Case {
 			}
 		}
 	}
+	// the same at every later step of session establishment (the steps before it are
+	// answered): whatever a failing step does on its way out - tidying up a half-open
+	// session, say - happens inside the caller's deadline, not one attempt timeout later
+	for _, f := range []string{"blackhole", "garbage", "late", "truncated"} {
+		for k := 1; k < steps["newsession"]; k++ {
+			out = append(out, Case{Call: "newsession", Fault: f, K: k, T: 1500 * time.Millisecond, D: 400 * time.Millisecond})
+		}
+	}
 	// deadlines that fall while a RETRY is waiting for its reply (the back-off before
 	// the first retry is 0.25-0.75 s): after one silent attempt of 1.5 s the second
 	// attempt is in flight at 2.6 s; after an immediate garbage reply the second
